@@ -22,7 +22,7 @@ func (fr *Frame) frameCheck(st *State, l *Loc, pos token.Pos) {
 	var alts []Term
 	alts = append(alts, Le(vc.alloc0, PArr(l.Ptr)))
 	for _, it := range vc.modSet {
-		if it.ghost != "" || vc.ss.HeapName(it.heapType) != heap {
+		if !it.plain() || vc.ss.HeapName(it.heapType) != heap {
 			continue
 		}
 		switch {
@@ -53,7 +53,7 @@ func (fr *Frame) frameCheckArr(st *State, elemT types.Type, arr Term, cond Term,
 	heap := vc.ss.HeapName(elemT)
 	alts := []Term{Not(cond), Le(vc.alloc0, arr)}
 	for _, it := range vc.modSet {
-		if it.ghost != "" || vc.ss.HeapName(it.heapType) != heap {
+		if !it.plain() || vc.ss.HeapName(it.heapType) != heap {
 			continue
 		}
 		if it.elems {
@@ -79,7 +79,7 @@ func (fr *Frame) frameCheckItem(st *State, it modItem, pos token.Pos) {
 		alts = append(alts, Le(vc.alloc0, PArr(it.ptr)))
 	}
 	for _, m := range vc.modSet {
-		if m.ghost != "" || vc.ss.HeapName(m.heapType) != heap {
+		if !m.plain() || vc.ss.HeapName(m.heapType) != heap {
 			continue
 		}
 		switch {
@@ -110,6 +110,10 @@ func (fr *Frame) frameCheckItem(st *State, it modItem, pos token.Pos) {
 		"callee may modify memory outside this function's frame ("+heap+")")
 }
 
+func (it modItem) plain() bool {
+	return it.ghost == "" && !it.cb && !it.headers && it.mapType == nil
+}
+
 // loopFrame: objects that existed at function entry and are not in the
 // modifies set are unchanged by the loop (justified by the #frame obligations).
 func (vc *VC) loopFrame(hs *State, k string, old, nh Term) {
@@ -126,7 +130,7 @@ func (vc *VC) loopFrame(hs *State, k string, old, nh Term) {
 	}
 	var excl []string
 	for _, it := range vc.modSet {
-		if it.ghost != "" || vc.ss.HeapName(it.heapType) != k {
+		if !it.plain() || vc.ss.HeapName(it.heapType) != k {
 			continue
 		}
 		if it.elems {
